@@ -56,6 +56,7 @@ func checkWellFormed(r *run.CaseResult, res *observe.ListResult, peersComplete b
 
 func genFamilyWorld(g *rng.R, fam int) (*world.World, observe.ListOpts, string) {
 	cfg := world.DefaultCfg()
+	cfg.KindTwins, cfg.SharedNames = 0.1, 0.1
 	cfg.NamedEgressIP = 0
 	if g.P(0.3) {
 		cfg.Kinds = world.AllWorkloadKinds
@@ -162,7 +163,7 @@ func runC05(c *run.Ctx) {
 		r.Inconclusive = ""
 		return
 	}
-	checkWellFormed(r, res, opts.Focus == "", "c05.wellformed")
+	checkWellFormed(r, res, true, "c05.wellformed")
 	nip := 0
 	for _, p := range res.Peers {
 		if p.IsIP {
